@@ -6,6 +6,8 @@
 -/
 import AcbModel.Fx.Rates
 import AcbModel.Generated.Fx
+deriving instance DecidableEq for Except
+
 namespace Acb.Fx
 
 inductive FxErr
